@@ -1,7 +1,7 @@
 #!/usr/bin/env python3
 import json,sys
 for s in json.load(open(sys.argv[1])):
-    print("==",s['check'],"evals",s['evaluations'],"skipped",s['skipped'],"nontriv",s['nontrivial'],"distinct",len(s['hashes'])+s['enum_nontrivial'],"viol",len(s['violations']), "excluded", s['excluded_known'])
+    print("==",s['check'],"evals",s['evaluations'],"skipped",s['skipped'],"nontriv",s['nontrivial'],"distinct",s.get('hash_count',0)+s['enum_nontrivial'],"viol",len(s['violations']), "excluded", s['excluded_known'])
     for k,v in sorted(s['classes'].items()):
         print("   %-40s %d"%(k,v))
     if len(sys.argv)>2:
